@@ -1,78 +1,145 @@
-"""Differential sanity test of the translator: every generated Lean definition (lean/Fca/Gen/Generated.lean, run with
-`#eval`) against the real Python function on random tables and selections, out-of-range indexes included (IndexError /
-AssertionError must agree as well).   python tools/gen_difftest.py      (expects `... 0 differences`)"""
+"""Differential sanity test of the translator: every generated Lean definition (lean/Fca/Gen/Generated*.lean, run with
+`#eval`) against the real Python function on random inputs, out-of-range indexes and unknown names included (IndexError /
+AssertionError / KeyError must agree as well).   python tools/gen_difftest.py      (expects `... 0 differences`)
+Receivers: a `BinTableLists` for the record `Table`, a `FormalContext(backend='BinTableLists')` for `Ctx` (object / attribute
+names with occasional duplicates: the name -> index dictionaries keep the LAST index)."""
 import json, os, random, subprocess, sys
 VERIF = os.path.dirname(os.path.dirname(os.path.abspath(__file__)))
 os.chdir(VERIF)
 os.makedirs('.scratch', exist_ok=True)
 sys.path.insert(0, os.environ.get('FCAPY_REPO', '/repo'))
+sys.path.insert(0, os.path.join(VERIF, 'harness'))
 sys.dont_write_bytecode = True
+import py2lean
 from fcapy.context.bintable import BinTableLists
+from fcapy.context.formal_context import FormalContext
+from fcapy.mvcontext.pattern_structure import IntervalPS, SetPS, AttributePS
+from fcapy.poset import POSet
 rng = random.Random(7)
 cfg = json.load(open('harness/gen_targets.json'))
 def lb(b): return 'true' if b else 'false'
 def ltable(rows, w): return '(⟨[' + ', '.join('[' + ', '.join(lb(x) for x in r) + ']' for r in rows) + f'], {w}⟩ : Fca.Table)'
-def lopt(x): return 'none' if x is None else '(some [' + ', '.join(map(str, x)) + '])'
-def llist(x): return '[' + ', '.join(map(str, x)) + ']'
+def lstrs(x): return '[' + ', '.join(json.dumps(s) for s in x) + ']'
+def llist(x): return lstrs(x) if x and isinstance(x[0], str) else '[' + ', '.join(map(str, x)) + ']'
+def lopt(x): return 'none' if x is None else '(some ' + llist(x) + ')'
 def canon(v):
     if isinstance(v, BinTableLists): return ['T', [[int(bool(x)) for x in r] for r in v.data], v.width]
     if isinstance(v, bool): return int(v)
+    if isinstance(v, float): return int(v)
+    if isinstance(v, (set, frozenset)): return ['S'] + sorted(v)
     if isinstance(v, (list, tuple, range)): return [canon(x) for x in v]
     return v
-cases, lines = [], ['import Fca.Gen.Generated', 'open Fca Fca.Gen.Lists',
+cases = []
+lines = [f'import {py2lean.unit_module(cfg, u)}' for u in py2lean.units(cfg)] + ['open Fca Fca.Gen.Lists',
   'def showT (t : Fca.Table) : String := s!"[\\"T\\", {t.data.map (fun r => r.map (fun b => if b then 1 else 0))}, {t.width}]"',
+  'def showS (xs : List String) : String := "[" ++ ", ".intercalate (xs.map fun s => "\\"" ++ s ++ "\\"") ++ "]"',
   'def sB (r : Except PyErr Bool) : String := match r with | .ok b => (if b then "1" else "0") | .error e => s!"\\"{e.name}\\""',
   'def sN (r : Except PyErr Nat) : String := match r with | .ok b => toString b | .error e => s!"\\"{e.name}\\""',
   'def sLB (r : Except PyErr (List Bool)) : String := match r with | .ok b => toString (b.map fun x => if x then 1 else 0) | .error e => s!"\\"{e.name}\\""',
   'def sLN (r : Except PyErr (List Nat)) : String := match r with | .ok b => toString b | .error e => s!"\\"{e.name}\\""',
+  'def sLS (r : Except PyErr (List String)) : String := match r with | .ok b => showS b | .error e => s!"\\"{e.name}\\""',
+  'def sLLB (r : Except PyErr (List (List Bool))) : String := match r with | .ok b => toString (b.map fun r => r.map fun x => if x then 1 else 0) | .error e => s!"\\"{e.name}\\""',
+  'def sOP (r : Except PyErr (Option (Int × Int))) : String := match r with | .ok none => "null" | .ok (some (a, b)) => s!"[{a}, {b}]" | .error e => s!"\\"{e.name}\\""',
+  'def sLI (r : Except PyErr (List Int)) : String := match r with | .ok b => toString b | .error e => s!"\\"{e.name}\\""',
   'def sT (r : Except PyErr Fca.Table) : String := match r with | .ok b => showT b | .error e => s!"\\"{e.name}\\""']
-SHOW = {'Bool': 'sB', 'Nat': 'sN', 'List Bool': 'sLB', 'List Nat': 'sLN', 'Table': 'sT'}
+SHOW = {'Bool': 'sB', 'Nat': 'sN', 'List Bool': 'sLB', 'List Nat': 'sLN', 'List String': 'sLS', 'List (List Bool)': 'sLLB', 'Table': 'sT', 'Option (Num × Num)': 'sOP', 'Set Num': 'sLI', 'FSet Nat': 'sLN'}
 def sel(n, allow_oob):
     r = rng.random()
     if r < 0.3: return None
     k = rng.randint(0, n + 1)
     hi = n + (1 if allow_oob and rng.random() < 0.3 else 0)
     return [rng.randint(0, max(hi - 1, 0)) if hi > 0 else 0 for _ in range(k)] if (hi > 0 or k == 0) else [0] * k
+def names(pool):
+    """a list of names from the pool, now and then with an unknown one"""
+    k = rng.randint(0, len(pool) + 1)
+    xs = [rng.choice(pool) for _ in range(k)]
+    if rng.random() < 0.15: xs.insert(rng.randint(0, len(xs)), 'zz')
+    return xs
+ROWISH = ('rows', 'row_slicer', 'row_idx', 'object_indexes', 'base_objects_i')       # selections of rows / objects
 for _ in range(60):
     h, w = rng.randint(1, 4), rng.randint(1, 4)
     rows = [[rng.random() < 0.6 for _ in range(w)] for _ in range(h)]
     t = BinTableLists([list(r) for r in rows])
+    onames = [rng.choice(['g0', 'g1', 'g2', 'g3', 'x']) if rng.random() < 0.25 else f'g{i}' for i in range(h)]
+    anames = [rng.choice(['a', 'b', 'c', 'x']) if rng.random() < 0.25 else 'abcd'[j] for j in range(w)]
+    K = FormalContext([list(r) for r in rows], object_names=onames, attribute_names=anames, backend='BinTableLists')
+    lK = f'(⟨.lists, {ltable(rows, w)}, {lstrs(onames)}, {lstrs(anames)}⟩ : Fca.Ctx)'
+    ivs = [tuple(sorted((rng.randint(-3, 5), rng.randint(-3, 5)))) for _ in range(h)]
+    sets = [set(rng.sample(range(-2, 5), rng.randint(0, 3))) for _ in range(h)]
+    flags = [rng.random() < 0.6 for _ in range(h)]
+    RECV = {'Ctx': (K, lK), 'Table': (t, ltable(rows, w)),
+            'IvPS': (IntervalPS(list(ivs)), '(⟨[' + ', '.join(f'({a}, {b})' for a, b in ivs) + ']⟩ : Fca.Gen.IvPS)'),
+            'SetPS': (SetPS([set(x) for x in sets]), '(⟨[' + ', '.join('[' + ', '.join(map(str, sorted(x))) + ']' for x in sets) + ']⟩ : Fca.Gen.SetPS)'),
+            'AttrPS': (AttributePS(list(flags)), '(⟨[' + ', '.join(lb(x) for x in flags) + ']⟩ : Fca.Gen.AttrPS)')}
+    # a poset: distinct masks under inclusion, or distinct numbers under divisibility (both partial orders)
+    if rng.random() < 0.5:
+        els = rng.sample(range(0, 16), rng.randint(1, 6)); pleq = lambda a, b: a & b == a; lleq = 'fun a b => a &&& b == a'
+    else:
+        els = rng.sample(range(1, 13), rng.randint(1, 6)); pleq = lambda a, b: b % a == 0; lleq = 'fun a b => decide (a ∣ b)'
+    RECV['POSet'] = (POSet(list(els), pleq, use_cache=False), f'(⟨{els}, {lleq}⟩ : Fca.Gen.PosetR Nat)')
     for tg in cfg['targets']:
         name = tg['qualname'].split('.')[-1]
         const = tg.get('const', {})
+        recv, lrecv = RECV[tg['params']['self']]
+        if tg['params']['self'] == 'POSet': h = len(els)
+        extra = py2lean.units(cfg)[tg.get('unit', '')].get('extra_args')
+        if extra: lrecv = 'id ' + lrecv           # the iteration order of sets: results are compared as sets
         P = [p for p in tg['params'] if p != 'self']
         args, largs = [], []
         for p in P:
             ty = tg['params'][p]
+            n = h if p in ROWISH or tg['params']['self'] == 'POSet' else w
             if ty == 'Option (List Nat)':
-                v = sel(h if p in ('rows',) else w, True); args.append(v); largs.append(lopt(v))
+                v = sel(n, True); args.append(v); largs.append(lopt(v))
             elif ty == 'List Nat':
-                v = sel(h, True) or []; args.append(v); largs.append(llist(v))
+                v = sel(n, True) or []
+                if rng.random() < 0.25: v = list(range(n))        # the `len(..) == n_objects / n_attributes` shortcuts
+                args.append(v); largs.append(llist(v))
             elif ty == 'Nat':
-                v = rng.randint(0, (h if 'row' in p else w)); args.append(v); largs.append(str(v))
+                v = rng.randint(0, n); args.append(v); largs.append(str(v))
+            elif ty == 'Option (Num × Num)':
+                v = None if rng.random() < 0.15 else tuple(sorted((rng.randint(-4, 6), rng.randint(-4, 6))))
+                if v is not None and rng.random() < 0.2: v = (v[1], v[0])
+                args.append(v); largs.append('none' if v is None else f'(some (({v[0]} : Int), ({v[1]} : Int)))')
+            elif ty == 'Option (Set Num)':
+                v = None if rng.random() < 0.15 else set(rng.sample(range(-2, 5), rng.randint(0, 5)))
+                args.append(v); largs.append('none' if v is None else '(some [' + ', '.join(f'({x} : Int)' for x in sorted(v)) + '])')
+            elif ty == 'Bool':
+                v = rng.random() < 0.5; args.append(v); largs.append(lb(v))
+            elif ty == 'List String':
+                v = names(onames if p == 'objects' else anames); args.append(v); largs.append(lstrs(v))
+            elif ty == 'Option (List String)':
+                v = None if rng.random() < 0.3 else names(onames); args.append(v); largs.append('none' if v is None else f'(some {lstrs(v)})')
             elif ty == 'Table':
                 h2, w2 = (h, w) if rng.random() < 0.7 else (rng.randint(1, 4), rng.randint(1, 4))
                 o = [[rng.random() < 0.5 for _ in range(w2)] for _ in range(h2)]
+                if rng.random() < 0.3: h2, w2, o = h, w, [list(r) for r in rows]          # an equal table (for `==`)
                 args.append(BinTableLists(o)); largs.append(ltable(o, w2))
-        fn = getattr(t, name)
+            else:
+                raise SystemExit(f'gen_difftest: no generator for parameter type {ty!r}')
         try:
-            if const: out = canon(fn(const['axis'], *args))
-            else: out = canon(fn(*args))
+            if name == '__len__': out = len(recv)
+            elif tg.get('property'): out = canon(getattr(recv, name))
+            elif const: out = canon(getattr(recv, name)(const['axis'], *args))
+            else: out = canon(getattr(recv, name)(*args))
         except Exception as e:
             out = type(e).__name__
+        if tg['returns'] == 'FSet Nat' and isinstance(out, list) and out[:1] != ['S']: out = ['S'] + sorted(out)
         cases.append((tg['lean'], [canon(a) for a in args], out))
-        lines.append(f'#eval IO.println ({SHOW[tg["returns"]]} ({tg["lean"]} {ltable(rows, w)} ' + ' '.join(largs) + '))')
+        lines.append(f'#eval IO.println ({SHOW[tg["returns"]]} ({tg["lean"]} {lrecv} ' + ' '.join(largs) + '))')
 DIFF = os.path.join(VERIF, '.scratch', f'Diff{os.getpid()}.lean')
 open(DIFF, 'w').write('\n'.join(lines) + '\n')
 p = subprocess.run(['lake', 'env', 'lean', DIFF], cwd='lean', stdout=subprocess.PIPE, stderr=subprocess.STDOUT, text=True)
 os.unlink(DIFF)
 outs = [l for l in p.stdout.split('\n') if l and not l.startswith('WARNING')]
 assert len(outs) == len(cases), (len(outs), len(cases), p.stdout[-2000:])
-bad = 0; errs = 0
+bad = 0; errs = 0; per = {}
 for (name, args, want), got in zip(cases, outs):
     g = json.loads(got)
+    if isinstance(want, list) and want[:1] == ['S'] and isinstance(g, list): g = ['S'] + sorted(set(g))      # a set: up to order / repetition
     if isinstance(want, str): errs += 1
+    per[name] = per.get(name, 0) + 1
     if g != want:
         bad += 1
         if bad < 10: print('DIFF', name, args, 'python:', want, 'lean:', g)
-print(f'{len(cases)} cases, {errs} raising in Python, {bad} differences')
+print(f'{len(cases)} cases over {len(per)} generated definitions, {errs} raising in Python, {bad} differences')
